@@ -1,2 +1,111 @@
-From ZC Require Import Model.Base Model.Info.
-Example C18_placeholder : True. Proof. exact I. Qed.
+(* C18 - service-info lookup: bounded, cache-first, never from expired data. Statements only.
+   Model/Info.v: ServiceInfo._process_record_threadsafe, _load_from_cache and the async_request loop as a state machine whose steps
+   are the coroutine's turns and the record-update listener's deliveries; tied to the real AsyncServiceInfo by label replay
+   (Corr/C18.v). Vocabulary (Proofs/C18_info.v): lookup = request_start followed by a list of steps (Turn cache now rnd | Update cache
+   now records); lookup_punctual = times never decrease and no turn happens later than the coroutine's own wake-up time
+   wake_at = min(next query, deadline); live_kind r now k = r is of kind k and not expired at now. *)
+From ZC Require Import Model.Base Model.PyRec Model.Dict Model.Cache Model.Query Model.Info Gen.Const Gen.DnsPure Proofs.C18_info.
+
+(* returns no later than its timeout (every legal timeout is non-negative; a negative one returns at once) *)
+Theorem C18_bounded : forall c h name t0 timeout forced rnd0 steps r' h' outs t b,
+  0 <= timeout -> lookup_punctual c h name t0 timeout forced rnd0 steps ->
+  lookup c h name t0 timeout forced rnd0 steps = (r', h', outs) -> In (RReturn t b) outs -> t <= t0 + timeout.
+Proof. exact bounded_partial. Qed.
+
+Theorem C18_bounded_any_timeout : forall c h name t0 timeout forced rnd0 steps r' h' outs t b,
+  lookup_punctual c h name t0 timeout forced rnd0 steps ->
+  lookup c h name t0 timeout forced rnd0 steps = (r', h', outs) -> In (RReturn t b) outs -> t <= Z.max t0 (t0 + timeout).
+Proof. exact bounded_general. Qed.
+
+(* a failure is reported exactly at the deadline, and a turn at the wake-up time always makes progress (returns or queries) *)
+Theorem C18_false_at_deadline : forall c h name t0 timeout forced rnd0 steps r' h' outs t,
+  0 <= timeout -> lookup_punctual c h name t0 timeout forced rnd0 steps ->
+  lookup c h name t0 timeout forced rnd0 steps = (r', h', outs) -> In (RReturn t false) outs -> t = t0 + timeout.
+Proof. exact false_return_exact. Qed.
+
+Theorem C18_deadline_turn_returns : forall c h name t0 timeout forced rnd0 steps r' h' outs c' rnd,
+  lookup c h name t0 timeout forced rnd0 steps = (r', h', outs) -> is_complete (rq_info r') = false ->
+  loop_turn c' h' r' (rq_last r') rnd = (set_done r' (Some false), h', [RReturn (t0 + timeout) false]).
+Proof. exact timeout_exact. Qed.
+
+(* it succeeds iff by then it knows at least one address *)
+Theorem C18_success_iff : forall c h name t0 timeout forced rnd0 steps r' h' outs t b,
+  lookup c h name t0 timeout forced rnd0 steps = (r', h', outs) -> In (RReturn t b) outs ->
+  (b = true <-> is_complete (rq_info r') = true) /\ (b = false -> t0 + timeout <= t) /\ rq_done r' = Some b /\
+  (forall t2 b2, In (RReturn t2 b2) outs -> b2 = b).
+Proof. exact return_iff_lookup. Qed.
+
+Theorem C18_complete_iff_address : forall i, is_complete i = true <-> si_v4 i <> [] \/ si_v6 i <> [].
+Proof. exact complete_iff. Qed.
+
+(* never from expired data: an expired record changes nothing; host/port/priority/weight only from a live SRV of the instance; TXT only
+   from a live TXT of the instance; addresses only from live address records of the current host (or, on a host change, from the live
+   cached address records of the new host) *)
+Theorem C18_expired_ignored : forall c now i r, DNSRecord_is_expired r now = true -> process_record c now i r = (i, false).
+Proof. exact expired_ignored. Qed.
+
+Theorem C18_srv_source : forall c now i r i' u,
+  process_record c now i r = (i', u) -> srv_fields i' <> srv_fields i ->
+  live_kind r now KService /\ lower (p_name r) = si_key i /\ srv_fields i' = (Some (p_server r), Some (p_port r), p_weight r, p_priority r).
+Proof. exact sources_service. Qed.
+
+Theorem C18_txt_source : forall c now i r i' u,
+  process_record c now i r = (i', u) -> si_text i' <> si_text i -> live_kind r now KText /\ lower (p_name r) = si_key i /\ si_text i' = p_text r.
+Proof. exact sources_text. Qed.
+
+Theorem C18_v4_source : forall c now i r i' u a,
+  process_record c now i r = (i', u) -> In a (si_v4 i') ->
+  In a (si_v4 i) \/ learnt_from_address now i r a \/ learnt_from_new_host c now i r C_TYPE_A a.
+Proof. exact sources_v4. Qed.
+
+Theorem C18_v6_source : forall c now i r i' u a,
+  process_record c now i r = (i', u) -> In a (si_v6 i') ->
+  In a (si_v6 i) \/ learnt_from_address now i r a \/ learnt_from_new_host c now i r C_TYPE_AAAA a.
+Proof. exact sources_v6. Qed.
+
+Theorem C18_cache_addresses_live : forall c now k ty v a,
+  In a (addresses_from_cache c now (Some k) ty v) ->
+  exists x, In x (get_all_by_details c k ty C_CLASS_IN) /\ p_address x = a /\ DNSRecord_is_expired x now = false.
+Proof. exact addresses_from_cache_sound. Qed.
+
+(* cache first: when the cache already suffices nothing is transmitted and the history is untouched *)
+Theorem C18_cache_first : forall c h name now timeout rnd forced r h' outs,
+  is_complete (load_from_cache c now (sinfo_init name)) = true ->
+  request_start c h name now timeout rnd forced = (r, h', outs) ->
+  outs = [RReturn now true] /\ h' = h /\ (forall t qu m, ~ In (RSend t qu m) outs) /\ rq_done r = Some true /\
+  rq_info r = load_from_cache c now (sinfo_init name).
+Proof. exact cache_first_outputs. Qed.
+
+(* first QU (unless a type is forced), then QM; what a query contains is C13_request *)
+Theorem C18_question_types : forall c h name t0 timeout forced rnd0 steps r h1 o0 r' h' o,
+  request_start c h name t0 timeout rnd0 forced = (r, h1, o0) -> run r h1 steps = (r', h', o) ->
+  (forall t qu m, In (RSend t qu m) o0 -> qu = first_question_type forced /\ t = t0) /\
+  (forall t qu m, In (RSend t qu m) o -> qu = false).
+Proof. exact question_types. Qed.
+
+(* pacing: consecutive query turns are at least 220 ms apart, from the third on at least 1019 ms (draws are 20..120) *)
+Theorem C18_pacing : forall c h name t0 timeout forced rnd0 steps k a b,
+  Forall draw_ok (Turn c t0 rnd0 :: steps) ->
+  nth_error (lookup_query_times c h name t0 timeout forced rnd0 steps) k = Some a ->
+  nth_error (lookup_query_times c h name t0 timeout forced rnd0 steps) (S k) = Some b ->
+  a + 220 <= b /\ ((2 <= k)%nat -> a + 1019 <= b).
+Proof. exact pacing. Qed.
+
+Theorem C18_sends_only_at_query_turns : forall c h name t0 timeout forced rnd0 steps r' h' outs t qu m,
+  lookup c h name t0 timeout forced rnd0 steps = (r', h', outs) -> In (RSend t qu m) outs ->
+  In t (lookup_query_times c h name t0 timeout forced rnd0 steps).
+Proof. exact lookup_sends_at_query_times. Qed.
+
+(* non-vacuity: a lookup against an empty cache that times out (punctually) after one query *)
+Example C18_example :
+  let name := [120; 46; 95; 116; 46; 95; 116; 99; 112; 46; 108; 111; 99; 97; 108; 46] in
+  exists r h outs, lookup empty_cache [] name 1000 200 None 20 [Turn empty_cache 1200 20] = (r, h, outs) /\
+                   In (RReturn 1200 false) outs /\ (exists m, In (RSend 1000 true m) outs).
+Proof. vm_compute. do 3 eexists. split; [reflexivity|]. split; [right; left; reflexivity|]. eexists. left. reflexivity. Qed.
+
+Print Assumptions C18_bounded. Print Assumptions C18_bounded_any_timeout. Print Assumptions C18_false_at_deadline.
+Print Assumptions C18_deadline_turn_returns. Print Assumptions C18_success_iff. Print Assumptions C18_complete_iff_address.
+Print Assumptions C18_expired_ignored. Print Assumptions C18_srv_source. Print Assumptions C18_txt_source.
+Print Assumptions C18_v4_source. Print Assumptions C18_v6_source. Print Assumptions C18_cache_addresses_live.
+Print Assumptions C18_cache_first. Print Assumptions C18_question_types. Print Assumptions C18_pacing.
+Print Assumptions C18_sends_only_at_query_turns.
